@@ -5,7 +5,7 @@ and keeper-level LP functions, evaluated inside Coq; spec checker on the real ob
 import json, os
 
 FILES = ["Base/Prelude.v", "Base/Dec.v", "Model/Layer2.v", "Model/C20Check.v", "Proofs/Layer2.v", "Proofs/Layer2Lp.v", "Proofs/Layer2All.v", "Proofs/Layer2Chk.v"]
-ORDER = ["user", "reject", "escrow", "frame", "burn", "total-sum", "max", "refund", "held", "pool-native", "lp-supply", "nofree-step", "nofree"]
+ORDER = ["user", "reject", "escrow", "frame", "burn", "total-sum", "max", "refund", "held", "pool-native", "lp-mint", "lp-supply", "nofree-step", "nofree"]
 
 
 def observe(R, n, seed=None):
@@ -63,6 +63,8 @@ def features(case, s, users):
             if f in feats:
                 return f
         return "none"
+    if op in ("mintissue", "burntx", "banksend"):
+        return "lp-denom" if str(st.get("den", "")).startswith("lp/") else "none"
     if op == "upsert":
         old = [d for d in prev["dapps"] if d["name"] == st["name"]]
         if old and int(old[0]["total"]) != st.get("total", 0):
